@@ -111,6 +111,7 @@ class Fn:
         self.result_vars = []
         self.calls = {}
         self.dep_calls = {}      # normalised source text of a dependent call -> integer variable
+        self.smap = {}           # normalised source text of a scalar sub-expression -> scalar variable
         self.auto_params = []
         self._declared = set()
         self.world = False       # opaque calls become calls of the world W (effects threaded through `w`)
@@ -736,6 +737,10 @@ class Fn:
         """floating/Scalar expression -> term over the Ops record `o`."""
         n = strip(n)
         k = n['kind']
+        if self.smap:
+            txt_ = re.sub(r'^this->', '', re.sub(r'\s+', '', self.A.src_text(n)))
+            if txt_ in self.smap:
+                return self.smap[txt_]
         if k == 'FloatingLiteral':
             return self.lit(n)
         if k in ('CXXUnresolvedConstructExpr', 'CXXFunctionalCastExpr', 'CStyleCastExpr', 'CXXStaticCastExpr', 'ImplicitCastExpr'):
